@@ -363,6 +363,38 @@ func c01R9(c *Ctx, r *Report) {
 			r.Check("C01-R9", fmt.Sprintf("fn=GetChanges join #%d cached entries come from the read that bounded the query", joined), c.Pos(call.Pos()), found && same, "appended entries = result of the cache read whose validity point ended the query", "the entries appended to the query result come from a different cache read than the one whose validity point bounded the query: the cache may have been pruned in between and the gap is skipped")
 		})
 		if joined == 0 {
+			// the concatenation may live in a helper: a call that receives both the query result and the cached entries of a read
+			for _, hc := range c.Calls(fn, false, func(string) bool { return true }) {
+				callee := hc.Common().StaticCallee()
+				if callee == nil || !c.InScope(callee) || hc == q {
+					continue
+				}
+				hasQ, found, same := false, false, true
+				for _, a := range hc.Common().Args {
+					if DependsOn(a, func(v ssa.Value) bool { return v == valueOfCall(q) }) {
+						hasQ = true
+					}
+					DependsOn(a, func(v ssa.Value) bool {
+						if e, isE := v.(*ssa.Extract); isE && e.Index == 1 {
+							for _, o := range reads {
+								if valueOfCall(o) == e.Tuple {
+									found = true
+									if o != rd {
+										same = false
+									}
+								}
+							}
+						}
+						return false
+					})
+				}
+				if hasQ && found {
+					joined++
+					r.Check("C01-R9", fmt.Sprintf("fn=GetChanges join #%d cached entries come from the read that bounded the query", joined), c.Pos(hc.Pos()), same, "the helper "+c.FuncName(callee)+" receives the query result and the entries of the cache read whose validity point ended the query", "the entries handed to the joining helper come from a different cache read than the one whose validity point bounded the query")
+				}
+			}
+		}
+		if joined == 0 {
 			r.Fail("C01-R9", fmt.Sprintf("fn=GetChanges join of query #%d with cached entries", i+1), c.Pos(q.Pos()), "no concatenation of query result and cached entries found")
 		}
 	}
